@@ -55,6 +55,9 @@ checks["C10"] = dict(level="model_checking", text="Vars.tla defines Value(cfg) (
 checks["C20"] = dict(level="model_checking", text="Remote.tla models readRemoteNodeContent (cache lookup, expiry, --offline, --download, fall-back on failure, checksum approval, the cache writes) as a decision per invocation over the state (server version and reachability, cache content / approved checksum / timestamp age); TLC checks the RemoteProps monitor (nothing unapproved runs, unapproved new content gives 104, an approved cached copy keeps tasks runnable offline or with the network down, plain http needs --insecure) on every history up to the depth bound. Histories from a grammar over server states x every flag subset, plus seeded random ones, are executed with the task CLI against an HTTP server owned by the driver; observed exit status and the content version that ran are judged by TLC with the same monitor and compared with the model's decision.",
    note="Trusted: TLC; local HTTP server of the driver; approval only via --yes (no terminal); one remote include over http.", ref="DESIGN.md 4.5, 5 (C20)", tech="TLA+ state machine of the remote cache checked by TLC + history replay against the CLI and a driver-owned HTTP server + TLC evaluation of observed histories", engine="remote")
 
+checks["C16"] = dict(level="exploration", text="Shape.tla describes the universe of wrong-shaped Taskfiles (a valid baseline with one or two deviations: one of 15 YAML node kinds at one of 64 schema positions; line terminator LF/CRLF/CR; trailing newline) and specifies only the class of outcome (success or diagnosed error). TLC enumerates all single-deviation documents; pairs are sampled from the same universe. Every document is driven through Setup, listing, compiling, Status and a dry Run of every task name in a worker process; panic (recovered or process death) or a hang is a violation; a sample goes through the CLI (exit status in the documented set). Together with the C15 run (hostile task names) this is exploration guided by the specification, not a proof over byte strings.",
+   note="Trusted: the worker/recover harness; shapes not bytes (DESIGN 8): invalid UTF-8, anchors/merge keys, deep nesting, git URLs are outside the universe.", ref="DESIGN.md 4.3 (Shape), 5 (C16), 8", tech="TLA+ cases specification of document shapes enumerated by TLC, each document exercised through the public API in a crash-isolating worker", engine="shape")
+
 ALL = ["C%02d" % i for i in range(1, 21)]
 pending = {p: "check not built yet in this round (planned, see DESIGN.md section 5)" for p in ALL if p not in checks}
 
@@ -75,6 +78,7 @@ m = {
   {"name": "cli", "path": "specs/cli + harness/clifam", "serves_properties": ["C19"], "kind_free_text": "TLA+ cases specification + CLI driver with argv-recording helper"},
   {"name": "out", "path": "specs/out + harness/outfam", "serves_properties": ["C17"], "kind_free_text": "TLA+ model of group/prefixed writers; blocking-sink replay"},
   {"name": "remote", "path": "specs/remote + harness/remotefam", "serves_properties": ["C20"], "kind_free_text": "TLA+ model of the remote Taskfile cache; CLI histories against a local HTTP server"},
+  {"name": "shape", "path": "specs/shape + harness/shapefam", "serves_properties": ["C16"], "kind_free_text": "TLA+ universe of wrong-shaped documents; crash-isolating API driver"},
  ],
  "checks": [], "not_applicable": [], "notes": "Every check: bash /verif/run.sh <id> <quick|thorough>; replay: bash /verif/run.sh <id> --replay <file>."
 }
